@@ -112,21 +112,29 @@ def headersDiffer (skip : σ → Bool) (cur new : Hdrs σ) : Bool :=
 
 def newDev (validTo : Int) : Dev σ := { validTo := validTo, locs := [], lastSeen := none, search := [], adv := [] }
 
+/-- the `SsdpDevice` `_see_device` works on: a new one, or the known one with its `valid_to` replaced -/
+def refreshed (s1 : Tracker σ) (u : σ) (vt : Int) : Dev σ :=
+  match get? s1.devices u with
+  | none => newDev vt
+  | some d => { d with validTo := vt }
+
+/-- `add_location` + `last_seen` -/
+def sighted (d0 : Dev σ) (loc : σ) (vt ts : Int) : Dev σ :=
+  { d0 with locs := set d0.locs loc vt, lastSeen := some ts }
+
+/-- `if not self.next_valid_to or self.next_valid_to > valid_to: self.next_valid_to = valid_to` -/
+def lowerNext (nx : Option Int) (vt : Int) : Option Int := if lowers nx vt then some vt else nx
+
 /-- `_see_device`: lazy purge at the packet's timestamp, create or refresh, location bookkeeping,
     watermark.  Result: the device record and `new_location`, or `none` for a broken device. -/
 def seeDevice (ipv : σ → Option Nat) (s : Tracker σ) (m : Msg σ) : Tracker σ × Option (σ × Dev σ × Bool) :=
-  let s1 := purge s m.ts
   match m.udn, m.loc with
   | some u, some loc =>
-    let validTo := m.ts + m.maxAge
-    let d0 : Dev σ := match get? s1.devices u with
-      | none => newDev validTo
-      | some d => { d with validTo := validTo }
-    let newLoc := locChanged ipv d0.locs loc
-    let d1 : Dev σ := { d0 with locs := set d0.locs loc validTo, lastSeen := some m.ts }
-    let nx := if lowers s1.next validTo then some validTo else s1.next
-    (⟨set s1.devices u d1, nx⟩, some (u, d1, newLoc))
-  | _, _ => (s1, none)
+    (⟨set (purge s m.ts).devices u (sighted (refreshed (purge s m.ts) u (m.ts + m.maxAge)) loc (m.ts + m.maxAge) m.ts),
+      lowerNext (purge s m.ts).next (m.ts + m.maxAge)⟩,
+     some (u, sighted (refreshed (purge s m.ts) u (m.ts + m.maxAge)) loc (m.ts + m.maxAge) m.ts,
+           locChanged ipv (refreshed (purge s m.ts) u (m.ts + m.maxAge)).locs loc))
+  | _, _ => (purge s m.ts, none)
 
 /-- `see_search` + `SsdpListener._on_search` -/
 def seeSearch (ipv : σ → Option Nat) (skip : σ → Bool) (s : Tracker σ) (m : Msg σ) : Tracker σ × Option (Notif σ) :=
